@@ -39,7 +39,7 @@ for s in seeds:
     groups.setdefault(s[1], []).append(s)
 with ThreadPoolExecutor(max_workers=6) as ex:
     for key, o in [x for g in ex.map(confirm_wt, list(groups.values())) for x in g]:
-        parts = re.split(r"== [^\n]*\n", o)
+        parts = re.split(r"(?m)^== [^\n]*\n", o)
         ok = False
         if len(parts) >= 4:
             suite, withp, without = parts[1], parts[2], parts[3]
